@@ -111,7 +111,7 @@ def run(F, tier, res):
             else:
                 res.violate('BALANCED', 'fn=%s;what=%s' % (p, what), 'an escape sequence that changes the terminal state (%s) is emitted without a reset on every path: '
                             'the rendition leaks into the following lines' % what, where=F.bodies[p]['mir']['span']['at'])
-    res.rule('C09.BALANCED', n, 3, 'uses of state-setting escape constants / ESC literals in output-producing code', discharged=ok, samples=samples)
+    res.rule('C09.BALANCED', n, 2, 'uses of state-setting escape constants / ESC literals in output-producing code', discharged=ok, samples=samples)
     # ---------- CUTTERS
     nc = okc = 0
     for p in sorted(render):
@@ -241,7 +241,7 @@ def run(F, tier, res):
             okc += 1
         else:
             res.violate('CUTTERS', 'fn=%s;escape-edge' % p, 'the truncation routine cuts at grapheme level on the escape-sequence edge (or the escape/text distinction is gone): escape sequences can be split', where=F.bodies[p]['mir']['span']['at'])
-    res.rule('C09.CUTTERS', nc, 8, 'truncate / pop sites in the renderer, the paint loop newline, the truncation routine', discharged=okc)
+    res.rule('C09.CUTTERS', nc, 4, 'truncate / pop sites in the renderer, the paint loop newline, the truncation routine', discharged=okc)
     from ._ansi import accounting_rule
     accounting_rule(F, res, 'C09')
     res.distinct.update(r['rule'] for r in res.rules)
